@@ -154,3 +154,56 @@ let () =
         let r = List.fold_left (fun r c -> (r * 512 + int_of_z c) mod 1033) 0 l in
         { model = ok_z (generate_alias l); spec = "ok " ^ string_of_int r; dom = List.for_all (fun c -> int_of_z c >= 0) l }
     | _ -> failwith "alias")
+
+(* ---------- view DAGs: "v=L0;m=exp(v);s=sub(v,m);..." (root = last binding) ---------- *)
+type oterm = OL of int | OT of string * oterm list            (* the handler's own terms (Spec side) *)
+let opcodes = ["exp"; "tanh"; "cos"; "sin"; "neg"; "add"; "sub"; "mul"; "div"; "pow"]
+let opcode name = let rec go i = function [] -> failwith ("unknown op " ^ name) | x :: t -> if x = name then i else go (i + 1) t in go 1 opcodes
+let parse_prog (s : string) : (string * string * string list) list =     (* var, op | "L<k>", args *)
+  List.map (fun b ->
+    match String.index_opt b '=' with
+    | None -> failwith "binding"
+    | Some i ->
+        let v = String.sub b 0 i and e = String.sub b (i + 1) (String.length b - i - 1) in
+        (match String.index_opt e '(' with
+         | None -> (v, e, [])
+         | Some j -> (v, String.sub e 0 j, String.split_on_char ',' (String.sub e (j + 1) (String.length e - j - 2)))))
+    (String.split_on_char ';' s)
+let show_dag nodes edges distinct nvars =
+  let nodes = List.sort compare nodes and edges = List.sort compare edges in
+  Printf.sprintf "dag nodes %d%s | edges %d%s | distinct %d/%d"
+    (List.length nodes) (if nodes = [] then "" else " " ^ String.concat "," nodes)
+    (List.length edges) (if edges = [] then "" else " " ^ String.concat "," edges) distinct nvars
+
+let () =
+  register "dag" (fun a -> match a with
+    | [p] ->
+        let prog = parse_prog (getS p) in
+        (* model: the extracted Functor.dag_nodes / dag_edges on the root term *)
+        let env = List.fold_left (fun env (v, op, args) ->
+            let t = if args = [] then LeafId (nat_of_int (int_of_string (String.sub op 1 (String.length op - 1))))
+                    else OpId (nat_of_int (opcode op), List.map (fun x -> List.assoc x env) args) in
+            env @ [(v, t)]) [] prog in
+        let name_of t = fst (List.find (fun (_, u) -> nid_eqb t u) env) in
+        let root = snd (List.nth env (List.length env - 1)) in
+        let m = show_dag (List.map name_of (dag_nodes root))
+                  (List.map (fun (x, y) -> name_of x ^ ">" ^ name_of y) (dag_edges root))
+                  (List.length (dedup nid_eqb (List.map snd env))) (List.length env) in
+        (* spec: written independently on the handler's own terms: one node per distinct term reachable from
+           the root, one edge per distinct (operand, operation) pair *)
+        let oenv = List.fold_left (fun env (v, op, args) ->
+            let t = if args = [] then OL (int_of_string (String.sub op 1 (String.length op - 1)))
+                    else OT (op, List.map (fun x -> List.assoc x env) args) in
+            env @ [(v, t)]) [] prog in
+        let oname t = fst (List.find (fun (_, u) -> u = t) oenv) in
+        let nodes = Hashtbl.create 16 and edges = Hashtbl.create 16 in
+        let rec walk t =
+          if not (Hashtbl.mem nodes t) then begin
+            Hashtbl.replace nodes t ();
+            match t with OL _ -> () | OT (_, args) -> List.iter (fun x -> Hashtbl.replace edges (x, t) (); walk x) args end in
+        walk (snd (List.nth oenv (List.length oenv - 1)));
+        let sp = show_dag (Hashtbl.fold (fun t () acc -> oname t :: acc) nodes [])
+                   (Hashtbl.fold (fun (x, y) () acc -> (oname x ^ ">" ^ oname y) :: acc) edges [])
+                   (List.length (List.sort_uniq compare (List.map snd oenv))) (List.length oenv) in
+        { model = m; spec = sp; dom = true }
+    | _ -> failwith "dag")
